@@ -812,7 +812,7 @@ static void op_chain(op_t *ops, int nops, int idx)
     const op_t *op = &ops[idx];
     for (uint32_t i = 0; i < op->n; i++) {
         char *nm = dupz(op->a[i].p, op->a[i].len);
-        if (nm[0]) prctl(PR_SET_NAME, nm, 0, 0, 0);
+        prctl(PR_SET_NAME, nm, 0, 0, 0);
         free(nm);
         pid_t p = fork();
         if (p < 0) { ev_error("fork chain"); _exit(94); }
